@@ -131,6 +131,73 @@ pub fn first_diff(a: &Value, b: &Value) -> Option<(String, String)> {
     None
 }
 
+/// getter projection (annot_dump) vs independent decoding of the same sheet; returns the first
+/// differing kind
+fn annot_vs_decoder(g: &Value, d: &Value) -> Option<(String, String)> {
+    let en = |v: &Value| crate::decode::enum_name(v.as_str().unwrap_or(""));
+    // validations
+    let mut gv: Vec<Value> = g["validations"]
+        .as_array()
+        .cloned()
+        .unwrap_or_default()
+        .iter()
+        .map(|v| json!({"sqref": v["sqref"], "type": en(&v["type"]), "f1": v["f1"], "f2": v["f2"], "prompt_title": v["prompt_title"], "prompt": v["prompt"], "error_title": v["error_title"], "error": v["error"]}))
+        .collect();
+    gv.sort_by_key(|v| v.to_string());
+    if json!(gv) != d["validations"] {
+        return Some(("validations".into(), format!("file {} workbook {}", trunc(&d["validations"]), trunc(&json!(gv)))));
+    }
+    let mut gc: Vec<Value> = g["cond_formats"]
+        .as_array()
+        .cloned()
+        .unwrap_or_default()
+        .iter()
+        .map(|c| {
+            let rules: Vec<Value> = c["rules"].as_array().cloned().unwrap_or_default().iter().map(|r| json!({"type": en(&r["type"]), "priority": r["priority"].to_string(), "text": r["text"], "formula": r["formula"]})).collect();
+            json!({"sqref": c["sqref"], "rules": rules})
+        })
+        .collect();
+    gc.sort_by_key(|v| v.to_string());
+    if json!(gc) != d["cond_formats"] {
+        return Some(("cond_formats".into(), format!("file {} workbook {}", trunc(&d["cond_formats"]), trunc(&json!(gc)))));
+    }
+    if g["auto_filter"] != d["auto_filter"] {
+        return Some(("auto_filter".into(), format!("file {} workbook {}", d["auto_filter"], g["auto_filter"])));
+    }
+    // a colour stored as palette index or theme reference cannot be resolved without the palette: only
+    // presence is compared then
+    let tc_same = match (g["tab_color"].as_str(), d["tab_color"].as_str()) {
+        (None, None) => true,
+        (Some(a), Some(b)) => a == b || b.starts_with("indexed:") || b.starts_with("theme:"),
+        _ => false,
+    };
+    if !tc_same {
+        return Some(("tab_color".into(), format!("file {} workbook {}", d["tab_color"], g["tab_color"])));
+    }
+    let gp = &g["view"]["pane"];
+    if !gp.is_null() || !d["pane"].is_null() {
+        let gpn = json!({"h": gp["h"].as_f64().unwrap_or(0.0), "v": gp["v"].as_f64().unwrap_or(0.0), "tl": gp["tl"], "state": en(&gp["state"])});
+        if gp.is_null() || gpn != d["pane"] {
+            return Some(("view".into(), format!("pane: file {} workbook {}", d["pane"], gpn)));
+        }
+    }
+    for k in ["header", "footer"] {
+        if g[k] != d[k] {
+            return Some((k.to_string(), format!("file {} workbook {}", d[k], g[k])));
+        }
+    }
+    let gpr = &g["protection"];
+    if !gpr.is_null() || !d["protection"].is_null() {
+        let spin = gpr["spin"].as_u64().unwrap_or(0);
+        let gn = json!({"alg": gpr["alg"], "hash": gpr["hash"], "salt": gpr["salt"], "spin": if gpr["hash"].as_str().map(|h| h.is_empty()).unwrap_or(true) && spin == 0 { "".to_string() } else { spin.to_string() }});
+        let dn = &d["protection"];
+        if gpr.is_null() || dn.is_null() || gn["alg"] != dn["alg"] || gn["hash"] != dn["hash"] || gn["salt"] != dn["salt"] {
+            return Some(("protection".into(), format!("file {} workbook {}", dn, gn)));
+        }
+    }
+    None
+}
+
 fn trunc(v: &Value) -> String {
     let s = v.to_string();
     if s.chars().count() > 300 {
@@ -221,6 +288,14 @@ pub fn execute(case: &Value, _scratch: &str) -> Outcome {
                     let merges: Vec<String> = ds.merges.iter().cloned().collect();
                     if json!(merges) != ps["merges"] {
                         out.violate(Verdict::new("C06", "C06:annotation-differs", &[("kind", "merges"), ("via", "decoder")], format!("sheet {}: file has {:?}, workbook {}", i, merges, ps["merges"])));
+                    }
+                    // sheet-level settings through the independent decoder, by ECMA-376 names/defaults
+                    if let Some((kind, detail)) = annot_vs_decoder(&ps["annot"], &ds.annot) {
+                        out.violate(Verdict::new("C06", "C06:annotation-differs", &[("kind", &kind), ("via", "decoder")], format!("sheet {}: {}", i, detail)));
+                    }
+                    let want_state = crate::decode::enum_name(ps["state"].as_str().unwrap_or("Visible"));
+                    if ds.state != want_state {
+                        out.violate(Verdict::new("C06", "C06:annotation-differs", &[("kind", "state"), ("via", "decoder")], format!("sheet {}: file says {:?}, workbook {:?}", i, ds.state, want_state)));
                     }
                     let mut c = ds.comments.clone();
                     c.sort();
